@@ -264,6 +264,13 @@ func site(stack string) string {
 	if f1 == "" {
 		return "unknown-site"
 	}
+	// The fixture runs collector and transmissions on clockwork's FakeClock. Its NewTicker/NewTimer reproduce the
+	// panics of their real counterparts (time.NewTicker: "non-positive interval for NewTicker", reached in production
+	// through clockwork's realClock): name the crash after the real function so that the signature does not depend on
+	// which clock the harness injected.
+	if m := strings.TrimPrefix(f1, "jonboulle/clockwork.(*FakeClock)."); m != f1 {
+		f1 = "time." + m
+	}
 	if f2 == "" || f2 == f1 {
 		return f1
 	}
